@@ -204,7 +204,6 @@ def check_decode(rdclass, rdtype, buf, cur, rdlen, origin):
     try:
         rd = _fw(rdclass, rdtype, buf, cur, rdlen, on)
     except FORMERR:
-        got = manual_consumption(rdclass, rdtype, buf, cur, rdlen, on)
         return False, fails
     except dns.exception.DNSException as e:
         fails.append(Fail("C02.decode_error_or_fixed_point", "from_wire raised %s, not a format error" % type(e).__name__, impl=impl, kind="non-FormError-DNSException", exc=type(e).__name__, site=_site(e)))
